@@ -292,6 +292,18 @@ def run(run):
     a, b = merge(sub, 'feedback dataflow: ')
     tot_states += a
     tot_valid += b
+    # the other side of the comparison: the feedforward loop consumes the same increments - its
+    # dataflow (C11's checker: averaged readings = sum of the increments stamped in (t, t_next] / step,
+    # x / P chains, measurement operands) on a configuration with increments and scale/misalignment
+    # states. The property id of the sub-run is this one: its replay dispatches to C11's oracle.
+    from . import c11 as c11m
+    sub = type(run)(PROP, run.level, run.tier, run.seed)
+    cfgs = [dict(label='feedforward side 4rows P1 B1 +increments', n_rows=4, sensors=[(P, 1, 2), (BV, 1, 3)], with_increments=True, model_states=(2, 4))]
+    filterdrive.drive(sub, PROP, 'feedforward', 'run_feedforward_filter', cfgs, [],
+                      dict(n_rows=3, sensors=[(P, 1, 2)], model_states=(1, 1)), checker_cls=c11m._dataflow_checker(), validate_cap=6)
+    a, b = merge(sub, 'feedforward side of the comparison: ')
+    tot_states += a
+    tot_valid += b
     fp_lemmas(run)
     # (b')
     rep = enga.AReport(run, box={'dt': (0.01, 1)})
@@ -352,6 +364,9 @@ def replay(spec):
         return {'violated': bool(fails), 'detail': fails}
     from ..filtercheck import replay_schedule
     from pyins import filters, strapdown, inertial_sensor
+    if spec.get('kind') == 'feedforward':
+        from . import c11 as c11m
+        return c11m.replay(spec)
     r = replay_schedule(spec)
     if r.get('violated') or spec.get('kind') != 'feedback':
         return r
